@@ -27,10 +27,15 @@ package net
 //@   loop 0 invariant[scan] foundListener == old(foundListener) && rangeindex + 1 >= 0 && (forall j Int :: 0 <= j && j <= rangeindex ==> clientNextProtos[j] != unboxStr(k))
 //@   modifies foundListener
 
-// IngressConn hands the connection to the sub-listener's channel (or closes it when the sub-listener is
-// closed): a goroutine-level effect, not specified.
+// IngressConn hands the connection to the sub-listener's channel, or closes it when the sub-listener is
+// closed: it closes nothing but the connection it was given, and only when the closed flag is set; it
+// returns with the read lock released (a lock left held would wedge Close for good). Whether the value
+// sent is ever received is schedule-level behaviour and not stated (C18 is not applicable).
 //@ func net.(*MultiplexingListener).IngressConn
-//@   trusted -- channel send / closed flag: schedule-level behaviour, outside sequential contracts
+//@   requires[wf] l != nil && !IsNil(conn)
+//@   nopanic[C17]
+//@   ensures[C17 unlocked] mutexHeld(l) == old(mutexHeld(l))
+//@   call iface:net.Conn.Close assert[C17 closedonly] l.closed && arg0 == conn
 
 // Start: for every accepted connection, where it goes.
 //   routed:  a connection is handed to a sub-listener only as follows - an authenticated connection (the
